@@ -734,12 +734,9 @@ def _run_chunk(args):
     import gc
     import warnings
     warnings.simplefilter('ignore')
-    gc.disable()          # forked worker: avoid copy-on-write storms
     out = []
     recs = []
     for i in idxs:
-        if len(out) % 16 == 15:
-            gc.collect()
         rs = base_seed * 1000003 + i
         rng = random.Random(rs)
         sc = gen_scenario(rng, None)
@@ -833,19 +830,9 @@ def run_batch(seed: int, tier: str, with_model: bool) -> dict:
             return json.loads(cf.read_text())
         except Exception:
             pass
-    import multiprocessing as mp
-    from harness import runtime_sim  # noqa: F401  import bqskit once, before forking
-    from harness import runtime_model  # noqa: F401
     N = n_runs(tier)
-    nproc = pool_size()
-    chunks = [(seed, list(range(k, N, nproc * 4)), with_model)
-              for k in range(nproc * 4)]
     t0 = time.time()
-    ctx = mp.get_context('fork')
-    import gc
-    gc.freeze()
-    with ctx.Pool(nproc) as pool:
-        parts = pool.map(_run_chunk, chunks)
+    parts = run_workers('batch', seed, tier, with_model)
     runs = sorted((r for p in parts for r in p), key=lambda r: r['i'])
     agg = {'runs': len(runs), 'wall_s': round(time.time() - t0, 1),
            'keys': [r['key'] for r in runs], 'verdicts': {}, 'counts': {},
@@ -1149,6 +1136,53 @@ def _exh_job(args):
         (p, sig, what, pre) for (p, sig), (what, pre) in verdicts.items()]
 
 
+def exhaustive_jobs(seed: int, tier: str) -> list:
+    scs = small_scenarios('all' if tier == 'thorough' else 'quick')
+    limit = 3000 if tier == 'thorough' else 1500
+    return [(name, sc, 11 + seed, limit) for name, sc in scs]
+
+
+def run_workers(kind: str, seed: int, tier: str, with_model: bool) -> list:
+    """Runs harness.runtime_worker in separate interpreter processes (forked
+    pool workers of a process that imported bqskit turned out to run the
+    simulation an order of magnitude slower on this machine)."""
+    import pickle
+    import subprocess
+    import sys
+    import tempfile
+    nproc = pool_size()
+    if kind == 'exh':
+        nproc = min(nproc, max(1, len(exhaustive_jobs(seed, tier))))
+    (VERIF / '.cache').mkdir(exist_ok=True)
+    tmp = Path(tempfile.mkdtemp(prefix='rtw-', dir=str(VERIF / '.cache')))
+    procs = []
+    for k in range(nproc):
+        of = tmp / f'{kind}-{k}.pkl'
+        procs.append((of, subprocess.Popen(
+            [sys.executable, '-W', 'ignore', '-m', 'harness.runtime_worker',
+             kind, str(seed), tier, str(k), str(nproc),
+             '1' if with_model else '0', str(of)],
+            cwd=str(VERIF), stdout=subprocess.PIPE, stderr=subprocess.STDOUT,
+            text=True)))
+    parts = []
+    err = None
+    for of, pr in procs:
+        out, _ = pr.communicate()
+        if pr.returncode != 0 or not of.exists():
+            err = (out or '')[-2000:]
+            continue
+        parts.append(pickle.loads(of.read_bytes()))
+        of.unlink()
+    try:
+        tmp.rmdir()
+    except OSError:
+        pass
+    if err is not None:
+        from harness.common import InfraError
+        raise InfraError('runtime worker failed:\n' + err)
+    return parts
+
+
 def run_exhaustive(seed: int, tier: str) -> dict:
     cdir = VERIF / '.cache'
     cdir.mkdir(exist_ok=True)
@@ -1158,19 +1192,7 @@ def run_exhaustive(seed: int, tier: str) -> dict:
             return json.loads(cf.read_text())
         except Exception:
             pass
-    import multiprocessing as mp
-    from harness import runtime_sim  # noqa: F401  import bqskit once, before forking
-    from harness import runtime_model  # noqa: F401
-    scs = small_scenarios('all' if tier == 'thorough' else 'quick')
-    limit = 6000 if tier == 'thorough' else 1500
-    jobs = [(name, sc, 11 + seed, limit) for name, sc in scs]
-    if tier == 'thorough':
-        jobs += [(name + '#seed2', sc, 12 + seed, limit) for name, sc in scs
-                 if sc['topo']['workers'] == 2]
-    import gc
-    gc.freeze()
-    with mp.get_context('fork').Pool(pool_size()) as pool:
-        res = pool.map(_exh_job, jobs, chunksize=1)
+    res = [r for part in run_workers('exh', seed, tier, True) for r in part]
     out = {'scenarios': {}, 'verdicts': {}}
     for name, sc, sd, stats, verd in res:
         out['scenarios'][name] = stats
